@@ -1,6 +1,21 @@
 """Terminal side of the C12 correspondence: a pty whose slave is the implementation
 driver's stdin/stdout/stderr; this process plays the terminal emulator from a profile
-and a burst/delay recipe, in real time.  (Helper module of props/c12.py.)"""
+and a burst/delay recipe, in real time.  (Helper module of props/c12.py.)
+
+Determinism under machine load (the check must never alarm because of scheduling):
+  * a burst is either TIMELY (written at once or after a short sleep; the whole round is
+    required to be finished within T/2 of the moment the library wrote its request —
+    measured with the library-side time stamp of the write, same CLOCK_MONOTONIC — else
+    the run is marked `timing_ok = False` and repeated) or LATE (held back until the call
+    has returned: "well beyond the timeout" without depending on any clock);
+  * the reader stops at the first prefix on which its `more` predicate is false; whether
+    bytes written in a separate write() AFTER that point are seen by the non-blocking
+    drain that follows is a race in the real world (and in no way determined by the
+    property), so such pieces are glued to the piece containing the stop point (one
+    write() = one atomic arrival) unless they are LATE;
+  * what the call left unread is collected with a sentinel protocol (see impl_c12.py),
+    not with a grace period.
+"""
 from __future__ import annotations
 
 import array
@@ -16,6 +31,7 @@ import time
 import core
 
 ESC = 0x1B
+CSI = b"\x1b["
 Q_XTVERSION = b"\x1b[>q"
 Q_DA1 = b"\x1b[c"
 Q_FG = b"\x1b]10;?\x1b\\"
@@ -23,10 +39,14 @@ Q_BG = b"\x1b]11;?\x1b\\"
 Q_CELL = b"\x1b[16t"
 Q_AREA = b"\x1b[14t"
 Q_KITTY = b"\x1b_Ga=q,t=d,i=31,f=24,s=1,v=1,C=1,c=1,r=1;AAAA\x1b\\"
-QUERIES = [("xtversion", Q_XTVERSION), ("da1", Q_DA1), ("fg", Q_FG), ("bg", Q_BG),
+# same order as QuerySpec.queries
+QUERIES = [("xtv", Q_XTVERSION), ("da1", Q_DA1), ("fg", Q_FG), ("bg", Q_BG),
            ("cell", Q_CELL), ("area", Q_AREA), ("kitty", Q_KITTY)]
+SENTINEL = b"~~C12-END-OF-CASE~~"
 
-HARD_CAP = 20.0  # seconds: a call that has not returned by then is reported as blocked
+HARD_CAP = 30.0  # seconds: a call that has not returned by then is reported as blocked
+# bytes that are safe to write to a tty in its default (ICANON | ISIG | IXON | ICRNL) mode
+PTY_SAFE = frozenset([0x07, 0x1B] + list(range(0x20, 0x7F)))
 
 
 class Blocked(Exception):
@@ -48,7 +68,7 @@ class Session:
             os.close(fd)
         self.resbuf = b""
         self.garbage = bytearray()
-        hello = self.recv(30.0)
+        hello = self.recv(60.0)
         if "hello" not in hello:
             raise RuntimeError(f"driver did not start: {hello}")
         self.hello = hello
@@ -95,12 +115,15 @@ class Session:
     def set_winsize(self, rows, cols, xpix, ypix):
         fcntl.ioctl(self.master, termios.TIOCSWINSZ, array.array("H", [rows, cols, xpix, ypix]))
 
-    def close(self):
+    def close(self, kill=False):
+        if not kill:
+            try:
+                self.send({"op": "quit"})
+            except OSError:
+                pass
         try:
-            self.send({"op": "quit"})
-        except OSError:
-            pass
-        try:
+            if kill:
+                self.proc.kill()
             self.proc.wait(timeout=5)
         except subprocess.TimeoutExpired:
             self.proc.kill()
@@ -113,12 +136,11 @@ class Session:
 
     # -- playing one case
     def play(self, case):
-        """Runs one case.  Returns the record of what actually happened:
-        {result, rounds: [{request, bursts: [[cls, bytes]], ...}], leftover, timing_ok, ...}
-        """
+        """Runs one case.  Returns the record of what actually happened."""
         T = case["timeout"]
         self.set_winsize(*case["winsize"])
-        # forget anything echoed / printed before
+        # forget anything printed before (nothing is ever echoed: we only write while the
+        # library or the driver has switched ECHO off)
         while select.select([self.master], [], [], 0)[0]:
             self.read_master()
         self.garbage.clear()
@@ -127,7 +149,7 @@ class Session:
         rounds, late, result = [], [], None
         reqbuf = bytearray()
         t_start = time.monotonic()
-        timing_ok = True
+        raw_request = bytes(case["request"]) if case["op"] == "raw" else None
         while result is None:
             result = self.poll_result()
             if result is not None:
@@ -142,10 +164,13 @@ class Session:
                 self.resbuf += chunk
             if self.master in rd:
                 reqbuf += self.read_master()
-                if reqbuf.endswith(Q_DA1) or (case["op"] == "raw" and reqbuf.endswith(bytes(case["request"]))):
+                if (reqbuf.endswith(raw_request) if raw_request is not None else reqbuf.endswith(Q_DA1)):
                     t_req = time.monotonic()
-                    start = reqbuf.find(bytes([ESC]))
-                    request = bytes(reqbuf[start:]) if start >= 0 else bytes(reqbuf)
+                    if raw_request is not None:
+                        request = raw_request
+                    else:
+                        start = reqbuf.find(bytes([ESC]))
+                        request = bytes(reqbuf[start:]) if start >= 0 else bytes(reqbuf)
                     reqbuf.clear()
                     k = len(rounds)
                     bursts = plan_round(case, k, request)
@@ -160,22 +185,27 @@ class Session:
                         os.write(self.master, data)
                         played.append([cls, list(data)])
                     t_done = time.monotonic()
-                    # every timely burst must really have been timely, with a wide margin
-                    if t_done - t_req > T / 2:
-                        timing_ok = False
                     rounds.append({"request": list(request), "bursts": played, "t_req": t_req, "t_done": t_done})
-        # late bursts are written only now: the call has returned
+        # what the call left unread: LATE bursts are written only now (the call has returned
+        # and the driver has put the tty into raw mode), then the sentinel
+        self.send({"op": "leftover"})
+        rdy = self.recv(HARD_CAP)
+        if not rdy.get("ready"):
+            raise RuntimeError(f"protocol: expected ready, got {rdy}")
         for data in late:
             os.write(self.master, data)
-        self.send({"op": "leftover"})
+        os.write(self.master, SENTINEL)
         lo = self.recv(HARD_CAP)
-        for r in rounds:
-            # the request was read by us after the library wrote it, i.e. after t0
-            if r["t_done"] - result["t0"] > T / 2 + (r["t_req"] - result["t0"]) and False:
+        writes = result.get("writes", [])
+        timing_ok = len(writes) == len(rounds) and bool(lo.get("sentinel_seen"))
+        for r, tw in zip(rounds, writes):
+            # every timely burst really was timely, with a wide margin
+            if r["t_done"] - tw > T / 2 or r["t_done"] < tw:
                 timing_ok = False
         return {"result": result, "rounds": rounds, "leftover": lo["leftover"],
                 "attr_restored": lo["attr_restored"], "timing_ok": timing_ok,
-                "elapsed": result["t1"] - result["t0"]}
+                "elapsed": result["t1"] - result["t0"],
+                "play_time": sum(r["t_done"] - r["t_req"] for r in rounds), "timeout": T}
 
 
 def tokenize(request: bytes):
@@ -192,40 +222,91 @@ def tokenize(request: bytes):
     return out
 
 
+def more_kind(case, request: bytes) -> str:
+    """which of the library's `more` predicates reads the reply to this request"""
+    if case["op"] == "raw":
+        return case["more"]
+    if request.startswith(Q_KITTY):
+        return "kitty"
+    if request.startswith(Q_CELL):
+        return "c"
+    return "csi"
+
+
+def stop_index(stream: bytes, kind: str):
+    """length of the shortest non-empty prefix on which `more` is false, or None"""
+    for n in range(1, len(stream) + 1):
+        p = stream[:n]
+        if kind == "csi":
+            done = p.endswith(CSI)
+        elif kind == "c":
+            done = p.endswith(b"c")
+        else:
+            done = p.endswith(b"c") and CSI in p
+        if done:
+            return n
+    return None
+
+
+def round_units(case, request: bytes):
+    if case["op"] == "raw":
+        return [bytes(u) for u in case["stream_units"]]
+    prof = case["profile"]
+    return [bytes(prof[q]) for q in tokenize(request) if prof.get(q) is not None]
+
+
 def plan_round(case, k, request: bytes):
     """[(class, delay_seconds, bytes)] for the k-th request of the case.
     class 0 = written back-to-back, 1 = after a short delay (well inside the timeout),
     2 = late (written only after the call has returned)."""
     T = case["timeout"]
-    if case["op"] == "raw":
-        units = [bytes(u) for u in case["stream_units"]]
-    else:
-        prof = case["profile"]
-        units = [bytes(prof[q]) for q in tokenize(request) if prof.get(q) is not None]
+    units = round_units(case, request)
     stream = b"".join(units)
-    recipe = case["recipes"][k] if k < len(case["recipes"]) else {"cuts": [], "delays": []}
-    cuts = sorted({c for c in recipe["cuts"] if 0 < c < len(stream)})
-    if recipe.get("units"):
-        # every reply as one unit: cut exactly at reply boundaries
-        cuts, pos = [], 0
-        for u in units[:-1]:
-            pos += len(u)
-            cuts.append(pos)
+    recipe = case["recipes"][k] if k < len(case["recipes"]) else {"mode": "whole", "delays": []}
+    mode = recipe.get("mode", "cuts")
+    bounds, pos = [], 0
+    for u in units[:-1]:
+        pos += len(u)
+        bounds.append(pos)
+    if mode == "whole":
+        cuts = []
+    elif mode == "units":
+        cuts = bounds
+    elif mode == "ugroups":
+        mask = recipe.get("mask", [])
+        cuts = [b for i, b in enumerate(bounds) if (mask[i % len(mask)] if mask else 1)]
+    elif mode == "every":
+        cuts = list(range(1, len(stream)))
+    else:
+        cuts = [c if c >= 0 else len(stream) + c for c in recipe.get("cuts", [])]
+    cuts = sorted({c for c in cuts if 0 < c < len(stream)})
     pieces, prev = [], 0
     for c in cuts + [len(stream)]:
         if c > prev:
-            pieces.append(stream[prev:c])
+            pieces.append((prev, c))
             prev = c
-    delays = list(recipe["delays"])
+    delays = list(recipe.get("delays", []))
     out, total, is_late = [], 0.0, False
-    for i, piece in enumerate(pieces):
-        d = delays[i] if i < len(delays) else 0
+    for i, (a, b) in enumerate(pieces):
+        d = delays[i % len(delays)] if delays else 0
         if d == 2 or is_late:
             is_late = True
-            out.append((2, 0.0, piece))
-        elif d == 1 and total + T / 25 <= T / 5:
+            out.append([2, 0.0, a, b])
+        elif d == 1 and total + T / 25 <= T / 5 + 1e-9:
             total += T / 25
-            out.append((1, T / 25, piece))
+            out.append([1, T / 25, a, b])
         else:
-            out.append((0, 0.0, piece))
-    return out
+            out.append([0, 0.0, a, b])
+    # glue what follows the reader's stop point to the piece that contains it
+    stop = stop_index(stream, more_kind(case, request))
+    if stop is not None:
+        idx = next(i for i, p in enumerate(out) if p[2] < stop <= p[3])
+        if out[idx][0] != 2:
+            glued = out[: idx + 1]
+            for p in out[idx + 1:]:
+                if p[0] == 2:
+                    glued.append(p)
+                else:
+                    glued[idx][3] = p[3]
+            out = glued
+    return [(cls, delay, stream[a:b]) for cls, delay, a, b in out]
